@@ -281,6 +281,15 @@ def run_check(prop: str, tier: str, spec: dict) -> int:
     base = K.derive(seed, prop, tier)
     budget = float(os.environ.get("VERIF_BUDGET_S", spec.get("budget_s", {}).get(tier, 600 if tier == "quick" else 1200)))
     workers = int(os.environ.get("VERIF_WORKERS", "16"))
+    if "VERIF_WORKERS" not in os.environ:
+        # a worker holding a compiled MuJoCo / G1 class needs up to ~4 GB: do not start more workers than the memory that is
+        # available right now can hold (a worker killed by the OOM killer is a harness error, never a verdict, but it wastes the run)
+        try:
+            with open("/proc/meminfo") as f:
+                avail_kb = next(int(line.split()[1]) for line in f if line.startswith("MemAvailable:"))
+            workers = max(2, min(workers, os.cpu_count() or workers, int(avail_kb / 1024 / 1024 / 3.5)))
+        except Exception:  # noqa: BLE001
+            pass
     os.environ["PYTHONHASHSEED"] = os.environ.get("VERIF_HASHSEED", "0")
     os.environ.setdefault("JAX_PLATFORMS", "cpu")
     os.environ.setdefault("XLA_FLAGS", "--xla_cpu_multi_thread_eigen=false intra_op_parallelism_threads=1")
